@@ -34,5 +34,11 @@ func (v *RemovePublicKeysValidator) Validate(p patch.Patch) error {
 		return fmt.Errorf("invalid remove public keys value: %s", err.Error())
 	}
 
-	return validateIds(document.StringArray(genericArr))
+	ids := document.StringArray(genericArr)
+
+	if err := allEntriesRead(len(ids), genericArr, "public key ids", "strings"); err != nil {
+		return err
+	}
+
+	return validateIds(ids)
 }
